@@ -151,6 +151,10 @@ func main() {
 		fail := func(clause, sig, what string) {
 			run.Violate(hx.Violation{Property: "C19", Clause: clause, Signature: sig, What: what, Seq: s, Ops: append([]interface{}{}, ops...)})
 		}
+		var kept struct {
+			propose *mr.RaftResponse
+			result  uint64
+		}
 		for q := 0; q < 14; q++ {
 			sid := uint64(1000*(s+1) + 10*(1+r.Intn(6)))
 			if r.Intn(3) == 0 {
@@ -278,6 +282,40 @@ func main() {
 					}
 					if resp.Result != uint64(len(cmd)) {
 						fail("facade_transparent", "propose-result", "Propose through the facade returned another result than the state machine's")
+					}
+					// an answer belongs to its caller: a later call (a longer command, so another result; another read) does not
+					// change what an earlier one returned - locally every call returns a value of its own
+					if kept.propose != nil && kept.propose.Result != kept.result {
+						fail("facade_transparent", "earlier-propose-answer-changed", fmt.Sprintf("the answer of an earlier Propose said result %d; after a later Propose through the facade the same answer says %d", kept.result, kept.propose.Result))
+					}
+					cmd2, _ := (&kv.KV{Key: fmt.Sprintf("k%d", q), Val: fmt.Sprintf("v%d-and-a-longer-value-%d", q, q)}).MarshalBinary()
+					cs2 := drummer.ToNodeHostSession(ps)
+					if res == "tracked" {
+						func() {
+							defer func() { recover() }()
+							cs2.ProposalCompleted()
+						}()
+					}
+					ps2 := drummer.ToPBSession(cs2)
+					if resp2, perr2 := api.Propose(ctx(), &mr.RaftProposal{Session: ps2, Data: cmd2}); perr2 == nil {
+						run.Count("c19:answer_kept_across_calls_checked")
+						if resp.Result != uint64(len(cmd)) || resp2.Result != uint64(len(cmd2)) {
+							fail("facade_transparent", "earlier-propose-answer-changed", fmt.Sprintf("Propose answered %d; after a second Propose (answer %d, want %d) the first answer says %d", len(cmd), resp2.Result, len(cmd2), resp.Result))
+						}
+						kept.propose, kept.result = resp2, resp2.Result
+						ps = ps2
+						// put the value the rest of the step expects back
+						if res == "tracked" {
+							cs3 := drummer.ToNodeHostSession(ps)
+							func() {
+								defer func() { recover() }()
+								cs3.ProposalCompleted()
+							}()
+							ps = drummer.ToPBSession(cs3)
+						}
+						if _, perr3 := api.Propose(ctx(), &mr.RaftProposal{Session: ps, Data: cmd}); perr3 != nil {
+							run.Count("c19:inconclusive_propose")
+						}
 					}
 					rr, rerr := api.Read(ctx(), &mr.RaftReadIndex{ShardId: sid, Data: []byte(fmt.Sprintf("k%d", q))})
 					local, lerr := h.NH.SyncRead(ctx(), sid, []byte(fmt.Sprintf("k%d", q)))
